@@ -1473,7 +1473,10 @@ def py_isinstance(eng, v, classes):
     if isinstance(v, Sym):
         t = v.ty
         if hasattr(t, "isinstance_"):
-            return t.isinstance_(v.term, classes)
+            try:
+                return t.isinstance_(v.term, classes)
+            except sv.UndeterminedIsinstance as e:
+                raise OutOfSubset(str(e))
         pyt = {TInt: (int,), TBool: (bool, int), TStr: (str,)}.get(t)
         if isinstance(t, TEnum):
             pyt = t.cls.__mro__
@@ -1494,7 +1497,14 @@ def py_isinstance(eng, v, classes):
         pc = getattr(v, "pyclass", None) or v.fields.get("__pyclass__")
         if pc is not None:
             return any(issubclass(pc, c) for c in classes if isinstance(c, type))
-        return any(getattr(c, "__name__", None) == v.cls for c in classes)
+        if any(getattr(c, "__name__", None) == v.cls for c in classes):
+            return True
+        # a modelled object without a Python class: it is certainly not a built-in scalar / container value; whether it
+        # is an instance of some other class is not determined by the model
+        builtin = (str, int, float, bool, bytes, list, tuple, dict, set, frozenset, type(None))
+        if all(c in builtin for c in classes if isinstance(c, type)):
+            return False
+        raise OutOfSubset("isinstance(<%s object>, %s) is not determined by the contract's model (no pyclass)" % (v.cls, [getattr(c, "__name__", c) for c in classes]))
     if isinstance(v, ListVal) or isinstance(v, SeqBox):
         return any(c is list for c in classes)
     if isinstance(v, MapVal):
